@@ -1,8 +1,13 @@
 package luagen
 
 import (
+	"bytes"
 	"context"
+	"encoding/json"
 	"fmt"
+	"math"
+	"os"
+	"os/exec"
 	"regexp"
 	"strconv"
 	"strings"
@@ -14,11 +19,40 @@ import (
 
 // OVal is the canonical observable form of a Lua value (mirrors GL.Lua.Run.oval).
 type OVal struct {
-	Kind string // nil bool num str ref fault
-	B    bool
-	N    float64
-	S    []byte
-	K, I int // ref kind/id or fault kind/line
+	Kind string  `json:"k"` // nil bool num str ref fault
+	B    bool    `json:"b,omitempty"`
+	N    float64 `json:"-"`
+	Bits uint64  `json:"n,omitempty"` // N as IEEE bits (JSON cannot carry NaN/Inf)
+	S    []byte  `json:"s,omitempty"`
+	K    int     `json:"rk,omitempty"` // ref kind / fault kind
+	I    int     `json:"ri,omitempty"` // ref id / fault line
+}
+
+// Pack/Unpack move N through Bits for JSON transport between the child and the parent process.
+func (o *Outcome) Pack() {
+	f := func(vs []OVal) {
+		for i := range vs {
+			vs[i].Bits = math.Float64bits(vs[i].N)
+		}
+	}
+	for _, r := range o.Trace {
+		f(r)
+	}
+	f(o.Results)
+	o.Err.Bits = math.Float64bits(o.Err.N)
+}
+
+func (o *Outcome) Unpack() {
+	f := func(vs []OVal) {
+		for i := range vs {
+			vs[i].N = math.Float64frombits(vs[i].Bits)
+		}
+	}
+	for _, r := range o.Trace {
+		f(r)
+	}
+	f(o.Results)
+	o.Err.N = math.Float64frombits(o.Err.Bits)
 }
 
 func (o OVal) Coq() string {
@@ -303,4 +337,40 @@ func trunc(s string, n int) string {
 		return s[:n] + "…"
 	}
 	return s
+}
+
+
+// ChildMain is the body of `<bin> child`: read a program from stdin, run it, print the outcome.
+func ChildMain(ro *RunOptions) {
+	var buf bytes.Buffer
+	buf.ReadFrom(os.Stdin)
+	out := Run(buf.String(), ro)
+	out.Pack()
+	b, _ := json.Marshal(out)
+	os.Stdout.Write(b)
+}
+
+// RunIsolated runs the program in a child process (`os.Args[0] child`): the interpreter can take
+// the whole process down (Go fatal stack overflow) or hang in ways a context cannot stop.
+func RunIsolated(src string, timeout time.Duration, childArgs ...string) *Outcome {
+	ctx, cancel := context.WithTimeout(context.Background(), timeout)
+	defer cancel()
+	cmd := exec.CommandContext(ctx, os.Args[0], append([]string{"child"}, childArgs...)...)
+	cmd.Stdin = bytes.NewReader([]byte(src))
+	var so, se bytes.Buffer
+	cmd.Stdout = &so
+	cmd.Stderr = &se
+	err := cmd.Run()
+	out := &Outcome{}
+	if err == nil && json.Unmarshal(so.Bytes(), out) == nil {
+		out.Unpack()
+		return out
+	}
+	msg := "child process failed"
+	if ctx.Err() != nil {
+		msg = "child process did not finish within the time limit"
+	} else if err != nil {
+		msg = "child process died: " + err.Error() + ": " + trunc(se.String(), 200)
+	}
+	return &Outcome{GoFail: msg, Err: OVal{Kind: "str", S: []byte("<crash>")}}
 }
